@@ -1,4 +1,848 @@
-//! C13 — not yet built
-use crate::ctx::Ctx;
-pub fn run(c: &mut Ctx) { c.notes.push("C13: not implemented".into()); }
-pub fn worker_case(_case: &str) -> String { "unimplemented".into() }
+//! C13 — read-only queries are total on arbitrary object graphs.
+//!
+//! Every query runs on the REAL `Document` inside the isolated worker (`iso::run_isolated`):
+//! a case line is the protocol request `c13 <mode> <fuel> <nt> <target ids…> <trailer> <k> <objects…>`;
+//! the worker answers one `field=value` token per query (`ok…` / `err` / `panic@file:line`),
+//! the parent adds `timeout` / `abort` for a dead worker and then isolates the offending field.
+//! Correspondence: the same request line is answered by the Lean model (`Driver/C13.lean`) and the
+//! replies are diffed field by field. Oracle: every field must be `ok…` or `err`.
+use crate::codec::*;
+use crate::ctx::{guard, Ctx};
+use crate::rng::Rng;
+use indexmap::IndexMap;
+use lopdf::{Dictionary, Document, Object, ObjectId, Outline, Stream, StringFormat};
+use serde_json::json;
+use std::collections::{BTreeMap, HashSet};
+
+// ------------------------------------------------------------------------------------------
+// worker side: run the queries on the real document
+// ------------------------------------------------------------------------------------------
+
+fn ids_str(ids: &[ObjectId]) -> String {
+    ids.iter().map(|(n, g)| format!("{}_{}", n, g)).collect::<Vec<_>>().join("+")
+}
+fn variant(o: &Object) -> String {
+    match o {
+        Object::Dictionary(d) => format!("Dictionary{}", d.len()),
+        Object::Array(a) => format!("Array{}", a.len()),
+        Object::Stream(s) => format!("Stream{}", s.dict.len()),
+        o => o.enum_variant().to_string(),
+    }
+}
+/// object as one token: protocol text with spaces replaced
+fn obj_tok(o: &Object) -> String { show_obj(o).replace(' ', "~") }
+
+fn site_class(site: &str, msg: &str) -> String {
+    if msg.contains("capacity overflow") { return "alloc:capacity-overflow".into(); }
+    if site.contains("iter/traits/accum.rs") && msg.contains("add with overflow") { return "core:sum-overflow".into(); }
+    site.to_string()
+}
+fn run_field<F: FnOnce() -> Result<String, ()>>(f: F) -> String {
+    match guard(f) {
+        Ok(Ok(s)) => if s.is_empty() { "ok".into() } else { format!("ok,{}", s) },
+        Ok(Err(())) => "err".into(),
+        Err((site, msg)) => format!("panic@{}", site_class(&site, &msg)),
+    }
+}
+fn e<T, E>(r: Result<T, E>) -> Result<T, ()> { r.map_err(|_| ()) }
+
+fn outline_digest(o: &Outline, s: &mut String) {
+    match o {
+        Outline::Destination(d) => {
+            s.push_str("d(");
+            s.push_str(&d.title().map(obj_tok).unwrap_or("-".into())); s.push('|');
+            s.push_str(&d.page().map(obj_tok).unwrap_or("-".into())); s.push(')');
+        }
+        Outline::SubOutlines(v) => { s.push('['); for x in v { outline_digest(x, s); } s.push(']'); }
+    }
+}
+fn named_digest(n: &IndexMap<Vec<u8>, lopdf::Destination>) -> String {
+    let mut s = format!("{}", n.len());
+    for (k, d) in n.iter() {
+        s.push_str(&format!(":{}({}|{})", hex_tok(k), d.title().map(obj_tok).unwrap_or("-".into()), d.page().map(obj_tok).unwrap_or("-".into())));
+    }
+    s
+}
+/// fields whose query walks `Next` / `First` / `Kids` links without any guard in the code
+pub fn is_walker(f: &str) -> bool { f == "outl" || f == "toc" || f == "dests" || f.starts_with("nd:") }
+
+/// all fields of a document, in the fixed order shared with the model
+pub fn field_names(targets: &[ObjectId]) -> Vec<String> {
+    let mut v: Vec<String> = vec!["cat".into(), "enc".into(), "cf".into(), "iter".into(), "pages".into()];
+    for t in targets {
+        let t = format!("{}_{}", t.0, t.1);
+        for q in ["go", "gom", "gd", "pc", "pcc", "pr", "pf", "pa", "pi", "op", "fe", "nd"] { v.push(format!("{}:{}", q, t)); }
+    }
+    v.push("outl".into()); v.push("toc".into()); v.push("dests".into()); v.push("text".into());
+    v
+}
+
+fn parse_id(s: &str) -> Option<ObjectId> { let (a, b) = s.split_once('_')?; Some((a.parse().ok()?, b.parse().ok()?)) }
+
+fn one_byte_name(t: &[Option<u16>; 256]) -> &'static str {
+    // distinguishing cells: 0x27 quotesingle/quoteright, 0x80, 0xA0, 0x18
+    match (t[0x27], t[0x80], t[0x18], t[0x21]) {
+        (Some(0x2019), None, None, _) => "Standard",
+        (Some(0x27), Some(0xC4), None, _) => "MacRoman",
+        (_, _, _, Some(0xF721)) => "MacExpert",
+        (Some(0x27), Some(0x20AC), None, _) => "WinAnsi",
+        (Some(0x27), Some(0x2022), Some(0x02D8), _) => "PDFDoc",
+        _ => "?",
+    }
+}
+
+fn font_encoding_field(doc: &Document, t: ObjectId) -> Result<String, ()> {
+    let d = e(doc.get_dictionary(t))?;
+    use lopdf::Encoding::*;
+    match d.get_font_encoding(doc) {
+        Ok(OneByteEncoding(t)) => Ok(format!("one:{}", one_byte_name(t))),
+        Ok(SimpleEncoding(n)) => Ok(format!("simple:{}", hex_tok(n))),
+        Ok(UnicodeMapEncoding(_)) => Ok("tounicode".into()),
+        // failures inside get_encoding_from_to_unicode_cmap (filters / CMap parser: C09, C15)
+        Err(lopdf::Error::ToUnicodeCMap(_)) | Err(lopdf::Error::Decompress(_)) | Err(lopdf::Error::Unimplemented(_)) | Err(lopdf::Error::IO(_)) => Ok("tounicode".into()),
+        Err(_) => Err(()),
+    }
+}
+
+pub fn eval_field(doc: &mut Document, field: &str) -> String {
+    let (q, arg) = field.split_once(':').unwrap_or((field, ""));
+    let t = parse_id(arg).unwrap_or((0, 0));
+    match q {
+        "cat" => run_field(|| Ok(format!("{}", e(doc.catalog())?.len()))),
+        "enc" => run_field(|| Ok(format!("{}", e(doc.get_encrypted())?.len()))),
+        "cf" => run_field(|| {
+            let m = doc.get_crypt_filters();
+            // the concrete filter type is not observable through `dyn CryptFilter`; names only
+            Ok(format!("{}{}", m.len(), m.keys().map(|k| format!(":{}", hex_tok(k))).collect::<String>()))
+        }),
+        "iter" => run_field(|| { let v: Vec<ObjectId> = doc.page_iter().collect(); Ok(format!("{},{},{}", v.len(), v.capacity(), ids_str(&v))) }),
+        "pages" => run_field(|| {
+            let m = doc.get_pages();
+            let ok = m.keys().enumerate().all(|(i, k)| *k as usize == i + 1);
+            let v: Vec<ObjectId> = m.values().cloned().collect();
+            Ok(format!("{}{},{}", if ok { "" } else { "BADNUM" }, v.len(), ids_str(&v)))
+        }),
+        "go" => run_field(|| Ok(variant(e(doc.get_object(t))?))),
+        "gom" => run_field(|| Ok(variant(e(doc.get_object_mut(t))?))),
+        "gd" => run_field(|| Ok(format!("{}", e(doc.get_dictionary(t))?.len()))),
+        "pc" => run_field(|| Ok(ids_str(&doc.get_page_contents(t)))),
+        "pcc" => run_field(|| { e(doc.get_page_content(t))?; Ok(String::new()) }),
+        "pr" => run_field(|| { let (d, ids) = e(doc.get_page_resources(t))?; Ok(format!("{},{}", if let Some(d) = d { format!("d{}", d.len()) } else { "n".into() }, ids_str(&ids))) }),
+        "pf" => run_field(|| { let f = e(doc.get_page_fonts(t))?; Ok(f.iter().map(|(k, d)| format!("{}.{}", hex_tok(k), d.len())).collect::<Vec<_>>().join("+")) }),
+        "pa" => run_field(|| Ok(format!("{}", e(doc.get_page_annotations(t))?.len()))),
+        "pi" => run_field(|| {
+            let v = e(doc.get_page_images(t))?;
+            Ok(v.iter().map(|i| format!("{}_{}.{}.{}.{}.{}.{}", i.id.0, i.id.1, i.width, i.height,
+                if i.color_space.is_some() { "s" } else { "n" },
+                i.bits_per_component.map(|b| b.to_string()).unwrap_or("n".into()),
+                i.filters.as_ref().map(|f| f.len()).unwrap_or(0))).collect::<Vec<_>>().join("+"))
+        }),
+        "op" => run_field(|| { let p = e(doc.get_object_page(t))?; Ok(format!("{}_{}", p.0, p.1)) }),
+        "fe" => run_field(|| font_encoding_field(doc, t)),
+        "nd" => run_field(|| {
+            let d = e(doc.get_dictionary(t))?;
+            let mut named = IndexMap::new();
+            e(doc.get_named_destinations(d, &mut named))?;
+            Ok(named_digest(&named))
+        }),
+        "dests" => run_field(|| {
+            // the tree `get_outlines` would use
+            let cat = e(doc.catalog())?;
+            let tree = match doc.get_dict_in_dict(cat, b"Dests") {
+                Ok(t) => t,
+                Err(_) => e(doc.get_dict_in_dict(e(doc.get_dict_in_dict(cat, b"Names"))?, b"Dests"))?,
+            };
+            let mut named = IndexMap::new();
+            e(doc.get_named_destinations(tree, &mut named))?;
+            Ok(named_digest(&named))
+        }),
+        "outl" => run_field(|| {
+            let mut named = IndexMap::new();
+            let o = e(doc.get_outlines(None, None, &mut named))?;
+            let mut s = String::new();
+            match o { Some(v) => { s.push('['); for x in &v { outline_digest(x, &mut s); } s.push(']'); } None => s.push_str("none") }
+            Ok(format!("{},{}", s, named_digest(&named)))
+        }),
+        "toc" => run_field(|| {
+            let t = e(doc.get_toc())?;
+            Ok(format!("{}{},{}", t.toc.len(), t.toc.iter().map(|x| format!(":{}.{}", x.level, x.page)).collect::<String>(), t.errors.len()))
+        }),
+        "text" => run_field(|| {
+            let n = doc.get_pages().len() as u32;
+            let mut nums: Vec<u32> = (1..=n.min(3)).collect(); nums.push(99); nums.push(0);
+            let chunks = doc.extract_text_chunks(&nums);
+            let all = doc.extract_text(&nums);
+            // decode_text on every font of the first pages
+            for (_, pid) in doc.get_pages().into_iter().take(3) {
+                if let Ok(fonts) = doc.get_page_fonts(pid) {
+                    for (_, f) in fonts { if let Ok(enc) = f.get_font_encoding(doc) {
+                        let _ = Document::decode_text(&enc, &[0, 1, 0x41, 0x80, 0xff, 0xd8, 0x00, 0xdc, 0x7f]);
+                    } }
+                }
+            }
+            Ok(format!("{}.{}", chunks.len(), if all.is_ok() { "ok" } else { "err" }))
+        }),
+        _ => "bad-field".into(),
+    }
+}
+
+pub struct Case { pub mode: String, pub fuel: u64, pub targets: Vec<ObjectId>, pub doc: Document }
+
+pub fn parse_case(line: &str) -> Option<Case> {
+    let toks: Vec<&str> = line.split(' ').filter(|t| !t.is_empty()).collect();
+    let mut it = toks.iter();
+    if *it.next()? != "c13" { return None; }
+    let mode = it.next()?.to_string();
+    let fuel: u64 = it.next()?.parse().ok()?;
+    let nt: usize = it.next()?.parse().ok()?;
+    let mut targets = vec![];
+    for _ in 0..nt { targets.push(parse_id(it.next()?)?); }
+    let trailer = match parse_obj(&mut it)? { Object::Dictionary(d) => d, _ => return None };
+    let k: usize = it.next()?.parse().ok()?;
+    let mut doc = Document::with_version("1.5");
+    doc.trailer = trailer;
+    for _ in 0..k {
+        let n: u32 = it.next()?.parse().ok()?;
+        let g: u16 = it.next()?.parse().ok()?;
+        let o = parse_obj(&mut it)?;
+        doc.objects.insert((n, g), o);
+        if n > doc.max_id { doc.max_id = n; }
+    }
+    if it.next().is_some() { return None; }
+    Some(Case { mode, fuel, targets, doc })
+}
+
+/// worker entry: `mode` = `all` | `nowalk` | `one=<field>`
+pub fn worker_case(case: &str) -> String {
+    let Some(mut c) = parse_case(case) else { return "bad-case".into() };
+    let fields: Vec<String> = if let Some(f) = c.mode.strip_prefix("one=") { vec![f.to_string()] }
+        else { field_names(&c.targets).into_iter().filter(|f| c.mode != "nowalk" || !is_walker(f)).collect() };
+    fields.iter().map(|f| format!("{}={}", f, eval_field(&mut c.doc, f))).collect::<Vec<_>>().join(" ")
+}
+
+
+// ------------------------------------------------------------------------------------------
+// parent side: generators
+// ------------------------------------------------------------------------------------------
+
+fn name(s: &str) -> Object { Object::Name(s.as_bytes().to_vec()) }
+fn lit(s: &[u8]) -> Object { Object::String(s.to_vec(), StringFormat::Literal) }
+fn rf(id: ObjectId) -> Object { Object::Reference(id) }
+fn dict(kv: Vec<(&str, Object)>) -> Dictionary { let mut d = Dictionary::new(); for (k, v) in kv { d.set(k, v); } d }
+/// a stream whose dictionary is exactly `d` (no Length fix-up)
+fn stream(d: Dictionary, content: &[u8]) -> Object { Object::Stream(Stream { dict: d, content: content.to_vec(), allows_compression: true, start_position: None }) }
+
+const KEYS: [&str; 36] = ["Type", "Kids", "Parent", "Count", "Contents", "Resources", "Font", "XObject", "ColorSpace", "Annots",
+    "Outlines", "First", "Next", "Dest", "A", "D", "S", "Title", "Names", "Dests", "Encoding", "ToUnicode", "Filter", "Length",
+    "Subtype", "Width", "Height", "BitsPerComponent", "Pages", "Root", "Encrypt", "CF", "CFM", "Linearized", "DecodeParms", "Last"];
+const NAMES: [&str; 26] = ["Page", "Pages", "Catalog", "Font", "XObject", "Image", "Form", "GoTo", "GoToR", "URI", "Fit", "XYZ",
+    "StandardEncoding", "MacRomanEncoding", "MacExpertEncoding", "WinAnsiEncoding", "PDFDocEncoding", "Identity-H", "Identity-V",
+    "UniGB-UCS2-H", "CryptFilter", "V2", "AESV2", "AESV3", "Identity", "DeviceRGB"];
+const CMAP: &[u8] = b"/CIDInit /ProcSet findresource begin 12 dict begin begincmap /CMapName /X def 1 begincodespacerange <00> <FF> endcodespacerange 2 beginbfchar <41> <0041> <42> <0062> endbfchar endcmap end end";
+const CONTENT: &[u8] = b"BT /F1 12 Tf (Hello) Tj [(A) -200 (B)] TJ ET BT /F2 9 Tf <4142> Tj ET";
+
+struct Gen<'a> { r: &'a mut Rng, doc: Document, next: u32 }
+impl<'a> Gen<'a> {
+    fn id(&mut self) -> ObjectId { self.next += 1 + self.r.below(2) as u32; (self.next, if self.r.chance(1, 12) { 1 } else { 0 }) }
+    fn add(&mut self, o: Object) -> ObjectId { let id = self.id(); self.doc.objects.insert(id, o); id }
+    /// `o` directly, or behind a fresh indirect object (sometimes a two-hop chain)
+    fn maybe_ref(&mut self, o: Object, pct: u64) -> Object {
+        if self.r.chance(pct, 100) { let id = self.add(o); if self.r.chance(1, 6) { let id2 = self.add(rf(id)); rf(id2) } else { rf(id) } } else { o }
+    }
+    fn font(&mut self) -> Object {
+        let mut d = dict(vec![("Type", name("Font")), ("Subtype", name("Type1")), ("BaseFont", name("Helvetica"))]);
+        match self.r.below(8) {
+            0 => {}
+            1 | 2 => { d.set("Encoding", name("WinAnsiEncoding")); }
+            3 => { d.set("Encoding", name(*self.r.pick(&["StandardEncoding", "MacRomanEncoding", "MacExpertEncoding", "PDFDocEncoding"]))); }
+            4 | 5 => { d.set("Encoding", name(*self.r.pick(&["Identity-H", "Identity-V"]))); let t = self.add(stream(Dictionary::new(), CMAP)); d.set("ToUnicode", rf(t)); }
+            6 => { d.set("Encoding", name("UniGB-UCS2-H")); }
+            _ => { let t = self.add(stream(Dictionary::new(), CMAP)); d.set("ToUnicode", rf(t)); }
+        }
+        Object::Dictionary(d)
+    }
+    fn image(&mut self) -> ObjectId {
+        let mut d = dict(vec![("Type", name("XObject")), ("Subtype", name(if self.r.chance(5, 6) { "Image" } else { "Form" })),
+            ("Width", Object::Integer(self.r.range(1, 64))), ("Height", Object::Integer(self.r.range(1, 64)))]);
+        match self.r.below(4) { 0 => {} 1 => { d.set("ColorSpace", name("DeviceRGB")); }
+            2 => { d.set("ColorSpace", Object::Array(vec![name("ICCBased"), Object::Integer(3)])); }
+            _ => { d.set("ColorSpace", Object::Array(vec![name("Indexed"), name("DeviceRGB"), Object::Integer(255)])); } }
+        if self.r.chance(2, 3) { d.set("BitsPerComponent", Object::Integer(8)); }
+        match self.r.below(3) { 0 => {} 1 => { d.set("Filter", name("DCTDecode")); } _ => { d.set("Filter", Object::Array(vec![name("ASCII85Decode"), name("FlateDecode")])); } }
+        self.add(stream(d, b"\x00\x01\x02"))
+    }
+    fn resources(&mut self) -> Dictionary {
+        let mut res = Dictionary::new();
+        let nf = self.r.usize(3);
+        if nf > 0 || self.r.chance(1, 2) {
+            let mut fd = Dictionary::new();
+            for i in 0..nf { let f = self.font(); let f = self.maybe_ref(f, 80); fd.set(format!("F{}", i + 1), f); }
+            let fdo = self.maybe_ref(Object::Dictionary(fd), 30); res.set("Font", fdo);
+        }
+        let ni = self.r.usize(3);
+        if ni > 0 {
+            let mut xd = Dictionary::new();
+            for i in 0..ni { let im = self.image(); xd.set(format!("Im{}", i + 1), rf(im)); }
+            let xdo = self.maybe_ref(Object::Dictionary(xd), 30); res.set("XObject", xdo);
+        }
+        res
+    }
+    fn page(&mut self, parent: ObjectId) -> ObjectId {
+        let id = self.id();
+        let mut d = dict(vec![("Type", name("Page")), ("Parent", rf(parent))]);
+        match self.r.below(5) {
+            0 => {}
+            1 | 2 => { let s = self.add(stream(Dictionary::new(), CONTENT)); let c = if self.r.chance(1, 5) { let s2 = self.add(rf(s)); rf(s2) } else { rf(s) }; d.set("Contents", c); }
+            _ => { let n = 1 + self.r.usize(3); let v: Vec<Object> = (0..n).map(|_| rf(self.add(stream(Dictionary::new(), CONTENT)))).collect();
+                   let a = self.maybe_ref(Object::Array(v), 25); d.set("Contents", a); }
+        }
+        if self.r.chance(3, 4) { let res = self.resources(); let ro = self.maybe_ref(Object::Dictionary(res), 50); d.set("Resources", ro); }
+        if self.r.chance(1, 2) {
+            let n = self.r.usize(3);
+            let v: Vec<Object> = (0..n).map(|_| { let a = dict(vec![("Type", name("Annot")), ("Subtype", name("Link"))]); rf(self.add(Object::Dictionary(a))) }).collect();
+            let a = self.maybe_ref(Object::Array(v), 30); d.set("Annots", a);
+        }
+        self.doc.objects.insert(id, Object::Dictionary(d));
+        id
+    }
+    fn pages(&mut self, parent: Option<ObjectId>, depth: usize, leaves: &mut Vec<ObjectId>) -> ObjectId {
+        let id = self.id();
+        let mut kids = vec![];
+        let n = 1 + self.r.usize(3);
+        let before = leaves.len();
+        for _ in 0..n {
+            if depth < 2 && self.r.chance(1, 4) { kids.push(rf(self.pages(Some(id), depth + 1, leaves))); }
+            else { let p = self.page(id); leaves.push(p); kids.push(rf(p)); }
+        }
+        let mut d = dict(vec![("Type", name("Pages")), ("Count", Object::Integer((leaves.len() - before) as i64))]);
+        let k = self.maybe_ref(Object::Array(kids), 20); d.set("Kids", k);
+        if let Some(p) = parent { d.set("Parent", rf(p)); }
+        if self.r.chance(1, 3) { let res = self.resources(); let ro = self.maybe_ref(Object::Dictionary(res), 70); d.set("Resources", ro); }
+        self.doc.objects.insert(id, Object::Dictionary(d));
+        id
+    }
+    fn dest_value(&mut self, leaves: &[ObjectId], names: &[Vec<u8>]) -> Object {
+        let pg = if leaves.is_empty() { (1, 0) } else { *self.r.pick(leaves) };
+        match self.r.below(4) {
+            0 if !names.is_empty() => { let k = self.r.pick(names).clone(); lit(&k) }
+            1 => { let a = Object::Array(vec![rf(pg), name("Fit")]); rf(self.add(a)) }
+            _ => Object::Array(vec![rf(pg), name("XYZ"), Object::Integer(0), Object::Integer(700), Object::Null]),
+        }
+    }
+    fn title(&mut self) -> Object {
+        match self.r.below(6) {
+            0 => lit(b"\xfe\xff\x00T\x00i"), 1 => lit(b"\xff\xfeT\x00i\x00"), 2 => lit(b"\xfe\xff\x00T\x00"), 3 => lit(b"x"),
+            _ => lit(format!("Title {}", self.r.below(4)).as_bytes()),
+        }
+    }
+    fn outline_items(&mut self, parent: ObjectId, n: usize, depth: usize, leaves: &[ObjectId], names: &[Vec<u8>]) -> Option<(ObjectId, ObjectId)> {
+        if n == 0 { return None; }
+        let ids: Vec<ObjectId> = (0..n).map(|_| self.id()).collect();
+        for (i, id) in ids.iter().enumerate() {
+            let t = self.title();
+            let t = self.maybe_ref(t, 15);
+            let mut d = dict(vec![("Title", t), ("Parent", rf(parent))]);
+            if self.r.chance(1, 2) { let dv = self.dest_value(leaves, names); d.set("Dest", dv); }
+            else { let dv = self.dest_value(leaves, names); let a = dict(vec![("S", name(if self.r.chance(5, 6) { "GoTo" } else { "URI" })), ("D", dv)]); let ao = self.maybe_ref(Object::Dictionary(a), 40); d.set("A", ao); }
+            if i + 1 < n { d.set("Next", rf(ids[i + 1])); }
+            if i > 0 { d.set("Prev", rf(ids[i - 1])); }
+            if depth < 2 && self.r.chance(1, 3) {
+                let k = 1 + self.r.usize(2);
+                if let Some((f, l)) = self.outline_items(*id, k, depth + 1, leaves, names) { d.set("First", rf(f)); d.set("Last", rf(l)); d.set("Count", Object::Integer(k as i64)); }
+            }
+            self.doc.objects.insert(*id, Object::Dictionary(d));
+        }
+        Some((ids[0], ids[n - 1]))
+    }
+}
+
+/// a well-formed document exercising every key the queries read
+fn gen_valid(r: &mut Rng) -> (Document, Vec<ObjectId>) {
+    let mut g = Gen { r, doc: Document::with_version("1.5"), next: 0 };
+    let cat = g.id();
+    let mut leaves = vec![];
+    let root = g.pages(None, 0, &mut leaves);
+    let mut c = dict(vec![("Type", name("Catalog")), ("Pages", rf(root))]);
+    // named destinations
+    let mut names: Vec<Vec<u8>> = vec![];
+    if g.r.chance(2, 3) {
+        let n = 1 + g.r.usize(3);
+        let mut arr = vec![];
+        for i in 0..n {
+            let key = format!("dest{}", i).into_bytes(); names.push(key.clone());
+            let pg = *g.r.pick(&leaves);
+            let d = Object::Array(vec![rf(pg), name("Fit")]);
+            let v = match g.r.below(3) { 0 => rf(g.add(Object::Dictionary(dict(vec![("D", d)])))), 1 => rf(g.add(d)), _ => Object::Dictionary(dict(vec![("D", d)])) };
+            arr.push(lit(&key)); arr.push(v);
+        }
+        let leaf = dict(vec![("Names", Object::Array(arr))]);
+        let tree = if g.r.chance(1, 2) { let l = g.add(Object::Dictionary(leaf)); dict(vec![("Kids", Object::Array(vec![rf(l)]))]) } else { leaf };
+        let to = g.maybe_ref(Object::Dictionary(tree), 60);
+        if g.r.chance(1, 3) { c.set("Dests", to); } else { let nm = dict(vec![("Dests", to)]); let nmo = g.maybe_ref(Object::Dictionary(nm), 50); c.set("Names", nmo); }
+    }
+    if g.r.chance(3, 4) {
+        let oid = g.id();
+        let n = 1 + g.r.usize(3);
+        let mut od = dict(vec![("Type", name("Outlines"))]);
+        if let Some((f, l)) = g.outline_items(oid, n, 0, &leaves, &names) { od.set("First", rf(f)); od.set("Last", rf(l)); od.set("Count", Object::Integer(n as i64)); }
+        g.doc.objects.insert(oid, Object::Dictionary(od));
+        c.set("Outlines", rf(oid));
+    }
+    g.doc.objects.insert(cat, Object::Dictionary(c));
+    g.doc.trailer.set("Root", rf(cat));
+    if g.r.chance(1, 4) {
+        let cf = dict(vec![("StdCF", Object::Dictionary(dict(vec![("Type", name("CryptFilter")), ("CFM", name(*g.r.pick(&["V2", "AESV2", "AESV3", "Identity", "None"])))]))),
+                           ("Other", Object::Dictionary(dict(vec![("Length", Object::Integer(16))])))]);
+        let e = g.add(Object::Dictionary(dict(vec![("Filter", name("Standard")), ("V", Object::Integer(4)), ("CF", Object::Dictionary(cf))])));
+        g.doc.trailer.set("Encrypt", rf(e));
+    }
+    (g.doc, leaves)
+}
+
+/// a value of a random kind; `refs` = ids references may point to
+fn chaos_value(r: &mut Rng, refs: &[ObjectId], depth: usize, key: &str) -> Object {
+    let link = matches!(key, "Kids" | "Parent" | "Contents" | "Resources" | "First" | "Next" | "Annots" | "Outlines" | "Dests" | "Names" | "Root" | "Pages" | "A" | "Font" | "XObject" | "ToUnicode" | "Encrypt" | "Dest" | "D" | "Title");
+    let k = if link && r.chance(1, 2) { if r.chance(3, 4) { 9 } else { 6 } } else { r.below(11) };
+    match k {
+        0 => Object::Null,
+        1 => Object::Boolean(r.chance(1, 2)),
+        2 => Object::Integer(if key == "Count" { r.range(-3, 40) } else { *r.pick(&[0i64, 1, -1, 2, 7, 255, -101, 65536, i64::MAX, i64::MIN]) }),
+        3 => Object::Real(*r.pick(&[0.5f32, -2.25, 100.0, 0.0])),
+        4 => name(*r.pick(&NAMES)),
+        5 => lit(*r.pick(&[&b""[..], b"x", b"dest0", b"dest1", b"\xfe\xff\x00A", b"\xfe\xff\x00", b"\xff\xfeA\x00\x01", b"Title 1", b"\xff"])),
+        6 => { let n = if depth >= 2 { 0 } else { r.usize(4) }; Object::Array((0..n).map(|_| chaos_value(r, refs, depth + 1, key)).collect()) }
+        7 => { let n = if depth >= 2 { 0 } else { r.usize(4) }; let mut d = Dictionary::new(); for _ in 0..n { let k = *r.pick(&KEYS); d.set(k, chaos_value(r, refs, depth + 1, k)); } Object::Dictionary(d) }
+        8 => { let mut d = Dictionary::new(); for _ in 0..r.usize(3) { let k = *r.pick(&KEYS); if k != "Filter" && k != "DecodeParms" { d.set(k, chaos_value(r, refs, 2, k)); } } stream(d, *r.pick(&[&b""[..], CONTENT, CMAP, b"\x00\xff"])) }
+        _ => if refs.is_empty() || r.chance(1, 10) { rf((900 + r.below(5) as u32, 0)) } else { rf(*r.pick(refs)) },
+    }
+}
+
+/// pre-order list of the dictionaries of an object (its own, nested ones up to depth 3): does each have `key`?
+fn dict_flags(o: &Object, depth: usize, key: &[u8], out: &mut Vec<bool>) {
+    match o {
+        Object::Dictionary(d) => { out.push(d.has(key)); if depth < 3 { for (_, v) in d.iter() { dict_flags(v, depth + 1, key, out); } } }
+        Object::Stream(s) => { out.push(s.dict.has(key)); if depth < 3 { for (_, v) in s.dict.iter() { dict_flags(v, depth + 1, key, out); } } }
+        Object::Array(a) => { if depth < 3 { for v in a.iter() { dict_flags(v, depth + 1, key, out); } } }
+        _ => {}
+    }
+}
+/// apply `f` to the `target`-th dictionary in the same pre-order
+fn with_nth_dict(o: &mut Object, depth: usize, n: &mut usize, target: usize, f: &mut dyn FnMut(&mut Dictionary)) {
+    match o {
+        Object::Dictionary(d) => { if *n == target { f(d); } *n += 1; if *n > target { return; } if depth < 3 { for (_, v) in d.iter_mut() { with_nth_dict(v, depth + 1, n, target, f); } } }
+        Object::Stream(s) => { if *n == target { f(&mut s.dict); } *n += 1; if *n > target { return; } if depth < 3 { for (_, v) in s.dict.iter_mut() { with_nth_dict(v, depth + 1, n, target, f); } } }
+        Object::Array(a) => { if depth < 3 { for v in a.iter_mut() { with_nth_dict(v, depth + 1, n, target, f); } } }
+        _ => {}
+    }
+}
+
+/// typed chaos: bind keys the queries read to values of random kinds / references forming random cycles
+fn chaos(r: &mut Rng, doc: &mut Document, n_mut: usize, c: &mut Ctx) {
+    let ids: Vec<ObjectId> = doc.objects.keys().cloned().collect();
+    for _ in 0..n_mut {
+        let key = *r.pick(&KEYS);
+        if key == "Filter" || key == "DecodeParms" { c.count("chaos.skipped_filter_keys"); continue; } // stream filters: C04/C09
+        let v = chaos_value(r, &ids, 0, key);
+        c.count(&format!("chaos.kind.{}", v.enum_variant()));
+        if r.chance(1, 12) { doc.trailer.set(key, v); continue; }
+        if r.chance(1, 15) { let t = *r.pick(&ids); doc.objects.insert(t, v); continue; }
+        // choose a dictionary: prefer one that already has the key (retyping an existing binding)
+        let mut targets: Vec<ObjectId> = ids.iter().cloned().filter(|id| match doc.objects.get(id) {
+            Some(Object::Dictionary(d)) => d.has(key.as_bytes()), Some(Object::Stream(s)) => s.dict.has(key.as_bytes()), _ => false }).collect();
+        if targets.is_empty() || r.chance(1, 3) { targets = ids.clone(); }
+        let t = *r.pick(&targets);
+        let Some(o) = doc.objects.get_mut(&t) else { continue };
+        let mut flags = vec![];
+        dict_flags(o, 0, key.as_bytes(), &mut flags);
+        if flags.is_empty() { continue; }
+        let with_key: Vec<usize> = (0..flags.len()).filter(|i| flags[*i]).collect();
+        let target = if !with_key.is_empty() && r.chance(3, 4) { *r.pick(&with_key) } else { r.usize(flags.len()) };
+        let mut v = Some(v);
+        with_nth_dict(o, 0, &mut 0, target, &mut |d| { if let Some(v) = v.take() { d.set(key, v); } });
+    }
+}
+
+// ------------------------------------------------------------------------------------------
+// parent side: independent graph analysis (which unguarded link structures does the document have?)
+// ------------------------------------------------------------------------------------------
+
+fn resolve<'a>(doc: &'a Document, mut o: &'a Object) -> Option<&'a Object> {
+    for _ in 0..200 { match o { Object::Reference(id) => o = doc.objects.get(id)?, _ => return Some(o) } }
+    None
+}
+fn sub_dict<'a>(doc: &'a Document, node: &'a Dictionary, key: &[u8]) -> Option<&'a Dictionary> {
+    match node.get(key).ok()? { Object::Dictionary(d) => Some(d), o @ Object::Reference(_) => match resolve(doc, o)? { Object::Dictionary(d) => Some(d), _ => None }, _ => None }
+}
+fn addr(d: &Dictionary) -> usize { d as *const Dictionary as usize }
+
+/// outline root node as `get_outlines` chooses it, and the destination tree it loads
+fn outline_start(doc: &Document) -> (Option<&Dictionary>, Option<&Dictionary>) {
+    let cat = match doc.trailer.get(b"Root").ok().and_then(|o| resolve(doc, o)) { Some(Object::Dictionary(d)) if matches!(doc.trailer.get(b"Root"), Ok(Object::Reference(_))) => d, _ => return (None, None) };
+    let tree = sub_dict(doc, cat, b"Dests").or_else(|| sub_dict(doc, cat, b"Names").and_then(|n| sub_dict(doc, n, b"Dests")));
+    let start = sub_dict(doc, cat, b"Outlines").map(|o| sub_dict(doc, o, b"First").unwrap_or(o));
+    (start, tree)
+}
+/// successors of an outline node: (via Next, via First)
+fn outline_succ<'a>(doc: &'a Document, n: &'a Dictionary) -> (Option<&'a Dictionary>, Option<&'a Dictionary>) {
+    let first = n.get(b"First").ok().and_then(|f| match f { Object::Dictionary(d) => Some(d), o => match resolve(doc, o)? { Object::Dictionary(d) if matches!(o, Object::Reference(_)) => Some(d), _ => None } });
+    (sub_dict(doc, n, b"Next"), first)
+}
+fn dest_kids<'a>(doc: &'a Document, n: &'a Dictionary) -> Vec<&'a Dictionary> {
+    match n.get(b"Kids") { Ok(Object::Array(a)) => a.iter().filter_map(|k| match k { Object::Reference(_) => match resolve(doc, k)? { Object::Dictionary(d) => Some(d), _ => None }, _ => None }).collect(), _ => vec![] }
+}
+/// does a cycle exist among the nodes reachable from `start` (iterative DFS with colours)?
+fn has_cycle<'a>(start: &'a Dictionary, succ: &dyn Fn(&'a Dictionary) -> Vec<&'a Dictionary>) -> bool {
+    let mut colour: BTreeMap<usize, u8> = BTreeMap::new();
+    let mut stack: Vec<(&'a Dictionary, Vec<&'a Dictionary>, usize)> = vec![(start, succ(start), 0)];
+    colour.insert(addr(start), 1);
+    while let Some((n, ss, i)) = stack.last_mut() {
+        if *i < ss.len() {
+            let m = ss[*i]; *i += 1;
+            match colour.get(&addr(m)) { Some(1) => return true, Some(_) => {}, None => { colour.insert(addr(m), 1); let s = succ(m); stack.push((m, s, 0)); } }
+        } else { colour.insert(addr(n), 2); stack.pop(); }
+        if colour.len() > 100_000 { return true; }
+    }
+    false
+}
+/// number of node visits the walkers make, up to `budget` (explosive DAGs are hazards too); the `Next` loop
+/// stops at a repeated `Next` reference like the code's `seen_next`
+fn outline_steps<'a>(doc: &'a Document, mut n: &'a Dictionary, budget: &mut i64, depth: usize) {
+    let mut seen: HashSet<ObjectId> = HashSet::new();
+    loop {
+        *budget -= 1; if *budget < 0 || depth > 400 { *budget = -1; return; }
+        let (next, first) = outline_succ(doc, n);
+        if let Some(f) = first { outline_steps(doc, f, budget, depth + 1); if *budget < 0 { return; } }
+        if let Ok(Object::Reference(id)) = n.get(b"Next") { if !seen.insert(*id) { return; } }
+        match next { Some(m) => n = m, None => return }
+    }
+}
+fn dest_steps<'a>(doc: &'a Document, n: &'a Dictionary, budget: &mut i64, depth: usize) {
+    *budget -= 1; if *budget < 0 || depth > 400 { *budget = -1; return; }
+    for k in dest_kids(doc, n) { dest_steps(doc, k, budget, depth + 1); if *budget < 0 { return; } }
+}
+
+#[derive(Default, Debug, Clone)]
+struct Hazard { next_cycle: bool, first_cycle: bool, kids_cycle: bool, explosive: bool }
+/// `next_cycle` is no hazard any more (the `Next` loop has a seen-set since 79a3229); it is kept for the counters
+impl Hazard { fn any(&self) -> bool { self.first_cycle || self.kids_cycle || self.explosive } }
+
+/// hazards of the outline / destination walk from the catalog, and of `get_named_destinations` on each target
+fn analyse(doc: &Document, targets: &[ObjectId]) -> Hazard {
+    let mut h = Hazard::default();
+    let (start, tree) = outline_start(doc);
+    let mut trees: Vec<&Dictionary> = tree.into_iter().collect();
+    for t in targets { if let Some(Object::Dictionary(d)) = doc.objects.get(t).and_then(|o| resolve(doc, o)) { trees.push(d); } }
+    for t in trees {
+        if has_cycle(t, &|n| dest_kids(doc, n)) { h.kids_cycle = true; }
+        else { let mut b = 3000i64; dest_steps(doc, t, &mut b, 0); if b < 0 { h.explosive = true; } }
+    }
+    if let Some(s) = start {
+        // nodes reachable over Next / First links
+        let mut nodes: Vec<&Dictionary> = vec![]; let mut seen = HashSet::new(); let mut todo = vec![s];
+        while let Some(n) = todo.pop() { if !seen.insert(addr(n)) || nodes.len() > 5000 { continue; } nodes.push(n); let (a, b) = outline_succ(doc, n); todo.extend(a); todo.extend(b); }
+        let reach = |from: &Dictionary, to: &Dictionary| -> bool {
+            let mut seen = HashSet::new(); let mut todo = vec![from];
+            while let Some(n) = todo.pop() { if addr(n) == addr(to) { return true; } if !seen.insert(addr(n)) { continue; } let (a, b) = outline_succ(doc, n); todo.extend(a); todo.extend(b); }
+            false
+        };
+        // a cycle through a First link = unbounded recursion; a cycle of Next links only = stopped by seen_next
+        for n in &nodes { if let (_, Some(f)) = outline_succ(doc, n) { if reach(f, n) { h.first_cycle = true; break; } } }
+        if !h.first_cycle {
+            if nodes.iter().any(|n| has_cycle(n, &|m| outline_succ(doc, m).0.into_iter().collect())) { h.next_cycle = true; }
+            let mut b = 3000i64; outline_steps(doc, s, &mut b, 0); if b < 0 { h.explosive = true; }
+        }
+    }
+    h
+}
+
+// ------------------------------------------------------------------------------------------
+// parent side: running cases
+// ------------------------------------------------------------------------------------------
+
+const FUEL: u64 = 5000;
+const TIMEOUT_MS: u64 = 1500;
+const MEM_MB: u64 = 1024;
+
+fn request(mode: &str, targets: &[ObjectId], doc: &Document) -> String {
+    let mut s = format!("c13 {} {} {}", mode, FUEL, targets.len());
+    for t in targets { s.push_str(&format!(" {}_{}", t.0, t.1)); }
+    s.push(' '); s.push_str(&show_obj(&Object::Dictionary(doc.trailer.clone())));
+    s.push(' '); s.push_str(&show_objects(doc.objects.iter()));
+    s
+}
+fn with_mode(req: &str, mode: &str) -> String {
+    let mut it = req.splitn(3, ' '); let a = it.next().unwrap(); let _ = it.next(); let rest = it.next().unwrap_or("");
+    format!("{} {} {}", a, mode, rest)
+}
+
+/// source text of a panic site (`src/document.rs:736`) read from the checkout the harness was built against
+fn site_text(site: &str) -> String {
+    let Some((file, line)) = site.rsplit_once(':') else { return String::new() };
+    let Ok(line) = line.parse::<usize>() else { return String::new() };
+    let path = format!("{}/../repo-link/{}", env!("CARGO_MANIFEST_DIR"), file);
+    std::fs::read_to_string(path).ok().and_then(|s| s.lines().nth(line.wrapping_sub(1)).map(|l| l.trim().to_string())).unwrap_or_default()
+}
+
+struct Pending { case_id: u64, stream: String, req: String, doc_targets: Vec<ObjectId>, hazard: Hazard }
+
+/// run a batch in the isolated worker; a dead worker (abort / timeout) is re-run field by field
+fn run_batch(c: &mut Ctx, batch: Vec<Pending>, docs: &[Document]) {
+    if batch.is_empty() { return; }
+    let lines: Vec<String> = batch.iter().map(|p| p.req.clone()).collect();
+    let single = lines.iter().all(|l| l.split(' ').nth(1).map(|m| m.starts_with("one=")).unwrap_or(false));
+    let replies = crate::iso::run_isolated("C13", &lines, if single { TIMEOUT_MS } else { TIMEOUT_MS * 4 }, MEM_MB);
+    for ((p, reply), doc) in batch.into_iter().zip(replies.into_iter()).zip(docs.iter()) {
+        c.cur = p.case_id;
+        let mode = p.req.split(' ').nth(1).unwrap_or("all").to_string();
+        let mut fields: Vec<(String, String)> = vec![];
+        let dead = reply == "timeout" || reply.starts_with("abort") || reply.is_empty();
+        if dead && mode.starts_with("one=") {
+            fields.push((mode[4..].to_string(), format!("!{}", reply.replace(' ', "_"))));
+        } else if dead {
+            c.count("isolated.rerun_per_field");
+            let names: Vec<String> = if let Some(f) = mode.strip_prefix("one=") { vec![f.to_string()] }
+                else { field_names(&p.doc_targets).into_iter().filter(|f| mode != "nowalk" || !is_walker(f)).collect() };
+            let reqs: Vec<String> = names.iter().map(|f| with_mode(&p.req, &format!("one={}", f))).collect();
+            let rs = crate::iso::run_isolated("C13", &reqs, TIMEOUT_MS, MEM_MB);
+            for (f, r) in names.iter().zip(rs.iter()) {
+                let v = if let Some(v) = r.strip_prefix(&format!("{}=", f)) { v.to_string() } else { format!("!{}", r.replace(' ', "_")) };
+                fields.push((f.clone(), v));
+            }
+        } else {
+            for tok in reply.split(' ') { if let Some((f, v)) = tok.split_once('=') { fields.push((f.to_string(), v.to_string())); } }
+        }
+        // canonicalise dead-worker outcomes
+        let outl_div = fields.iter().any(|(f, v)| f == "outl" && v.starts_with('!'));
+        for (f, v) in fields.iter_mut() {
+            if v.starts_with('!') {
+                let raw = v[1..].to_string();
+                *v = if f == "outl" || f == "dests" || f.starts_with("nd:") || (f == "toc" && (outl_div || p.hazard.any())) { "diverge".into() }
+                     else if raw.starts_with("abort") && (f == "pages" || f == "iter" || f == "toc" || f == "text" || f.starts_with("op:")) { "panic@abort:alloc".into() }
+                     else { format!("dead:{}", raw) };
+                c.count(&format!("dead.{}.{}", f.split(':').next().unwrap(), raw.split('_').next().unwrap_or("")));
+            }
+        }
+        // correspondence (the `text` field is oracle-only: content parser / filters / CMaps are other properties)
+        let corr_reply: String = fields.iter().filter(|(f, _)| f != "text").map(|(f, v)| format!("{}={}", f, v)).collect::<Vec<_>>().join(" ");
+        if !corr_reply.is_empty() { c.corr(p.req.clone(), corr_reply); }
+        // oracle: every query returns a value or an error
+        for (f, v) in &fields {
+            let q = f.split(':').next().unwrap();
+            let class = if v == "ok" || v.starts_with("ok,") { "ok" } else if v == "err" { "err" } else if v.starts_with("panic@") { "panic" } else if v == "diverge" { "diverge" } else { "other" };
+            c.count(&format!("outcome.{}.{}", q, class));
+            if class == "ok" || class == "err" { continue; }
+            let qname = match q { "outl" => "get_outlines", "toc" => "get_toc", "dests" | "nd" => "get_named_destinations", "pages" => "get_pages", "iter" => "page_iter.collect",
+                "op" => "get_object_page", "text" => "extract_text", "pi" => "get_page_images", x => x };
+            let sig = if let Some(site) = v.strip_prefix("panic@") {
+                if site == "abort:alloc" { format!("abort:alloc:{}", qname) }
+                else if site.starts_with("src/") { format!("panic@{}:{}", site, site_text(site)) } else { format!("panic@{}", site) }
+            } else if v == "diverge" {
+                let kind = if q == "dests" || q == "nd" { if p.hazard.kids_cycle { "kids-cycle" } else if p.hazard.explosive { "explosive-dag" } else { "unexplained" } }
+                    else if p.hazard.next_cycle { "next-cycle" } else if p.hazard.first_cycle { "first-cycle" } else if p.hazard.kids_cycle { "kids-cycle" }
+                    else if p.hazard.explosive { "explosive-dag" } else { "unexplained" };
+                format!("hang:{}:{}", qname, kind)
+            } else { format!("dead:{}:{}", qname, v) };
+            c.oracle_fail(&sig, &format!("{} did not return a value or an error: {}", qname, v),
+                json!({"stream": p.stream, "field": f, "outcome": v, "request": if p.req.len() < 3000 { p.req.clone() } else { format!("{}…", &p.req[..3000]) }}));
+        }
+        let _ = doc;
+    }
+}
+
+fn pick_targets(r: &mut Rng, doc: &Document, leaves: &[ObjectId]) -> Vec<ObjectId> {
+    let ids: Vec<ObjectId> = doc.objects.keys().cloned().collect();
+    let mut t = vec![];
+    if !leaves.is_empty() { t.push(*r.pick(leaves)); }
+    for _ in 0..3 { if !ids.is_empty() { t.push(*r.pick(&ids)); } }
+    if r.chance(1, 4) { t.push((999, 0)); }
+    t.dedup();
+    t
+}
+
+pub fn run(c: &mut Ctx) {
+    c.rule = "documents = well-formed generator output (page tree, Contents direct/array/chained, Resources direct/by reference/inherited, \
+fonts with every Encoding branch, image XObjects, Annots, outlines with Dest/A/named destinations, name trees, Encrypt/CF) with 0-12 typed-chaos \
+mutations (a key the queries read re-bound to a value of a random kind or to a reference, possibly forming cycles); every query runs on the real \
+Document in the isolated worker on 3-5 target ids; non-trivial = every case (distinct by request text); unguarded walkers are excluded from \
+documents in which the independent graph analysis finds First/Kids cycles (those go to the dedicated known-finding stream); Next cycles are walked (seen_next)".into();
+    let _ = guard(|| ());
+    // ---------------- well-formed documents
+    let mut batch = vec![]; let mut docs = vec![];
+    for i in 0..c.n(150, 2500) {
+        let Some(mut r) = c.case("valid", i) else { continue };
+        let (doc, leaves) = gen_valid(&mut r);
+        let targets = pick_targets(&mut r, &doc, &leaves);
+        let hz = analyse(&doc, &targets);
+        if hz.any() { c.oracle_fail("generator", "well-formed generator produced a hazard", json!({"hazard": format!("{:?}", hz)})); }
+        let req = request("all", &targets, &doc);
+        c.nontrivial(&req);
+        if i < 2 { c.sample(json!({"stream": "valid", "request": if req.len() < 600 { req.clone() } else { format!("{}…", &req[..600]) }})); }
+        batch.push(Pending { case_id: c.cur, stream: "valid".into(), req, doc_targets: targets, hazard: hz }); docs.push(doc);
+    }
+    run_batch(c, batch, &docs);
+    // ---------------- typed chaos
+    let mut batch = vec![]; let mut docs = vec![];
+    for i in 0..c.n(1200, 20000) {
+        let Some(mut r) = c.case("chaos", i) else { continue };
+        let (mut doc, leaves) = gen_valid(&mut r);
+        let n_mut = 1 + r.usize(12);
+        chaos(&mut r, &mut doc, n_mut, c);
+        let targets = pick_targets(&mut r, &doc, &leaves);
+        let hz = analyse(&doc, &targets);
+        if hz.next_cycle { c.count("chaos.next_cycle_walked"); }
+        let mode = if hz.any() { c.count("chaos.hazard_nowalk"); "nowalk" } else { "all" };
+        let req = request(mode, &targets, &doc);
+        c.nontrivial(&req);
+        if i < 2 { c.sample(json!({"stream": "chaos", "mutations": n_mut, "request": if req.len() < 600 { req.clone() } else { format!("{}…", &req[..600]) }})); }
+        batch.push(Pending { case_id: c.cur, stream: "chaos".into(), req, doc_targets: targets, hazard: hz }); docs.push(doc);
+    }
+    run_batch(c, batch, &docs);
+    // ---------------- reference chains around DEREF_LIMIT (dereference: > 128 hops; get_page_contents: < 128)
+    let mut batch = vec![]; let mut docs = vec![];
+    let lens: Vec<usize> = if c.quick() { vec![1, 2, 126, 127, 128, 129, 130, 131, 200] } else { (1..=140).chain([200, 256, 300]).collect() };
+    for (i, len) in lens.iter().flat_map(|l| [l, l]).enumerate() {
+        let Some(_r) = c.case("chains", i as u64) else { continue };
+        // 100+len .. 101 form a chain of `len` references ending in the page 3 / in a content stream 50
+        let mut doc = mini(vec![], vec![(50, stream(Dictionary::new(), CONTENT))]);
+        let end = if i % 2 == 0 { (3, 0) } else { (50, 0) };
+        for k in 1..=*len { doc.objects.insert((100 + k as u32, 0), rf(if k == 1 { end } else { (100 + k as u32 - 1, 0) })); }
+        let top = (100 + *len as u32, 0);
+        doc.objects.insert((3, 0), Object::Dictionary(dict(vec![("Type", name("Page")), ("Parent", rf((2, 0))), ("Contents", rf(if end == (50, 0) { top } else { (50, 0) })),
+            ("Annots", rf(top)), ("Resources", rf(top))])));
+        // a cyclic chain as well
+        doc.objects.insert((60, 0), rf((61, 0))); doc.objects.insert((61, 0), rf((60, 0)));
+        let targets = vec![top, (3, 0), (60, 0), (100 + (*len as u32 + 1) / 2, 0)];
+        let hz = analyse(&doc, &targets);
+        let req = request("all", &targets, &doc);
+        c.nontrivial(&req); c.count("chains.cases");
+        batch.push(Pending { case_id: c.cur, stream: "chains".into(), req, doc_targets: targets, hazard: hz }); docs.push(doc);
+    }
+    run_batch(c, batch, &docs);
+    known_streams(c);
+}
+
+// ------------------------------------------------------------------------------------------
+// known-finding territory: cyclic link structures, attacker-chosen Count, canonical witnesses
+// ------------------------------------------------------------------------------------------
+
+/// catalog 1, page-tree root 2 with one page 3, plus the given catalog entries and objects
+fn mini(cat_extra: Vec<(&str, Object)>, objs: Vec<(u32, Object)>) -> Document {
+    let mut doc = Document::with_version("1.5");
+    let mut cat = dict(vec![("Type", name("Catalog")), ("Pages", rf((2, 0)))]);
+    for (k, v) in cat_extra { cat.set(k, v); }
+    doc.objects.insert((1, 0), Object::Dictionary(cat));
+    doc.objects.insert((2, 0), Object::Dictionary(dict(vec![("Type", name("Pages")), ("Kids", Object::Array(vec![rf((3, 0))])), ("Count", Object::Integer(1))])));
+    doc.objects.insert((3, 0), Object::Dictionary(dict(vec![("Type", name("Page")), ("Parent", rf((2, 0)))])));
+    for (n, o) in objs { doc.objects.insert((n, 0), o); }
+    doc.trailer.set("Root", rf((1, 0)));
+    doc
+}
+fn fit_dest() -> Object { Object::Array(vec![rf((3, 0)), name("Fit")]) }
+fn item(kv: Vec<(&str, Object)>) -> Object { let mut d = dict(vec![("Title", lit(b"T"))]); for (k, v) in kv { d.set(k, v); } Object::Dictionary(d) }
+fn outlines_to(_first: u32) -> Vec<(&'static str, Object)> { vec![("Outlines", rf((10, 0)))] }
+
+/// root Kids = [page 3, Pages nodes 20.. with the given Count values]
+fn count_doc(counts: &[i64]) -> Document {
+    let mut doc = mini(vec![], vec![]);
+    let mut kids = vec![rf((3, 0))];
+    for (i, c) in counts.iter().enumerate() {
+        let id = 20 + i as u32; kids.push(rf((id, 0)));
+        doc.objects.insert((id, 0), Object::Dictionary(dict(vec![("Type", name("Pages")), ("Kids", Object::Array(vec![])), ("Count", Object::Integer(*c))])));
+    }
+    doc.objects.insert((2, 0), Object::Dictionary(dict(vec![("Type", name("Pages")), ("Kids", Object::Array(kids)), ("Count", Object::Integer(1))])));
+    doc
+}
+
+fn cyclic_doc(r: &mut Rng, kind: u64) -> Document {
+    let with_dest = r.chance(1, 2);
+    let d = |kv: Vec<(&str, Object)>| { let mut kv = kv; if with_dest { kv.push(("Dest", fit_dest())); } item(kv) };
+    let root = Object::Dictionary(dict(vec![("Type", name("Outlines")), ("First", rf((11, 0)))]));
+    match kind {
+        0 => mini(outlines_to(11), vec![(10, root), (11, d(vec![("Next", rf((11, 0)))]))]),
+        1 => mini(outlines_to(11), vec![(10, root), (11, d(vec![("Next", rf((12, 0)))])), (12, d(vec![("Next", rf((11, 0)))]))]),
+        2 => mini(outlines_to(11), vec![(10, root), (11, d(vec![("First", rf((11, 0)))]))]),
+        3 => mini(outlines_to(11), vec![(10, root), (11, d(vec![("First", rf((12, 0)))])), (12, d(vec![("First", rf((11, 0)))]))]),
+        4 => mini(vec![("Dests", rf((15, 0)))], vec![(15, Object::Dictionary(dict(vec![("Kids", Object::Array(vec![rf((15, 0))]))])))]),
+        _ => mini(vec![("Names", Object::Dictionary(dict(vec![("Dests", rf((15, 0)))])))], vec![
+            (15, Object::Dictionary(dict(vec![("Kids", Object::Array(vec![rf((16, 0))]))]))), (16, Object::Dictionary(dict(vec![("Kids", Object::Array(vec![rf((15, 0))]))])))]),
+    }
+}
+
+fn known_streams(c: &mut Ctx) {
+    // ---------------- cyclic Next / First / Kids (F-C13-b, F-C13-b2, F-C13-d4)
+    let mut batch = vec![]; let mut docs = vec![];
+    let n = c.n(6, 36);
+    for i in 0..n {
+        let Some(mut r) = c.case("cyclic", i) else { continue };
+        let kind = i % 6;
+        let doc = cyclic_doc(&mut r, kind);
+        let targets = vec![(15, 0)];
+        let hz = analyse(&doc, &targets);
+        let fields: Vec<&str> = if kind < 4 { vec!["outl", "toc"] } else if kind == 4 { vec!["dests", "nd:15_0", "outl"] } else { vec!["dests", "toc"] };
+        for f in fields {
+            let req = request(&format!("one={}", f), &targets, &doc);
+            if f == "outl" || f == "dests" { c.nontrivial(&req); } c.count(&format!("cyclic.kind{}", kind));
+            batch.push(Pending { case_id: c.cur, stream: "cyclic".into(), req, doc_targets: targets.clone(), hazard: hz.clone() }); docs.push(doc.clone());
+        }
+    }
+    run_batch(c, batch, &docs);
+    // ---------------- attacker-chosen Count in Pages nodes (F-C13-f*)
+    const B12: i64 = 768614336404564649; // largest Count for which (Count+1)*12 <= isize::MAX
+    const B8: i64 = 1152921504606846974; // same for 8-byte elements
+    let specials: [i64; 17] = [-1, -5, i64::MIN, 1 << 36, 1 << 40, 1 << 59, 1 << 60, 1 << 62, i64::MAX, B12 - 1, B12, B12 + 1, B8 - 1, B8, B8 + 1, i64::MAX - 1, 1 << 50];
+    let mut batch = vec![]; let mut docs = vec![];
+    for i in 0..c.n(19, 120) {
+        let Some(mut r) = c.case("count", i) else { continue };
+        let k = if (i as usize) < specials.len() { 1 } else { 1 + r.usize(4) };
+        let counts: Vec<i64> = if i == 17 || i == 18 { vec![i64::MAX, i64::MAX, if i == 17 { 1 } else { 2 }] } else { (0..k).map(|j| if (i as usize) < specials.len() && j == 0 { specials[i as usize] } else if r.chance(1, 4) { r.range(-5, 5) } else { *r.pick(&specials) }).collect() };
+        let doc = count_doc(&counts);
+        let targets = vec![(3, 0)];
+        let hz = analyse(&doc, &targets);
+        let fields: Vec<&str> = if i % 5 == 0 { vec!["pages", "iter", "op:3_0", "toc", "text"] } else { vec!["pages", "iter"] };
+        for f in fields {
+            let req = request(&format!("one={}", f), &targets, &doc);
+            if f == "pages" { c.nontrivial(&req); } c.count("count.cases");
+            batch.push(Pending { case_id: c.cur, stream: "count".into(), req, doc_targets: targets.clone(), hazard: hz.clone() }); docs.push(doc.clone());
+        }
+    }
+    run_batch(c, batch, &docs);
+    // ---------------- canonical witnesses of the registered findings
+    let root = |first: u32| Object::Dictionary(dict(vec![("Type", name("Outlines")), ("First", rf((first, 0)))]));
+    let img = |cs: Object| stream(dict(vec![("Subtype", name("Image")), ("Width", Object::Integer(1)), ("Height", Object::Integer(1)), ("ColorSpace", cs)]), b"");
+    let mut pg = dict(vec![("Type", name("Page")), ("Parent", rf((2, 0)))]);
+    pg.set("Resources", Object::Dictionary(dict(vec![("XObject", Object::Dictionary(dict(vec![("Im1", rf((30, 0)))])))])));
+    let names_doc = |key: Object, val: Object, extra: Vec<(u32, Object)>| mini(vec![("Dests", Object::Dictionary(dict(vec![("Names", Object::Array(vec![key, val]))])))], extra);
+    let w: Vec<(&str, &str, Document, &str, String)> = vec![
+        ("F-C13-a", "pi:3_0", { let mut d = mini(vec![], vec![(30, img(Object::Array(vec![])))]); d.objects.insert((3, 0), Object::Dictionary(pg.clone())); d },
+            "panic@src/document.rs", "get_page_images: ColorSpace [] -> array[0]".into()),
+        ("F-C13-b", "outl", mini(outlines_to(11), vec![(10, root(11)), (11, item(vec![("Next", rf((11, 0)))]))]), "diverge", "get_outlines: cyclic Next never terminates".into()),
+        ("F-C13-b", "toc", mini(outlines_to(11), vec![(10, root(11)), (11, item(vec![("Next", rf((11, 0))), ("Dest", fit_dest())]))]), "diverge", "get_toc: cyclic Next never terminates (vector grows until the allocator fails)".into()),
+        ("F-C13-b2", "outl", mini(outlines_to(11), vec![(10, root(11)), (11, item(vec![("First", rf((11, 0)))]))]), "diverge", "get_outlines: cyclic First recurses until the stack overflows".into()),
+        ("F-C13-c", "outl", mini(outlines_to(11), vec![(10, root(11)), (11, item(vec![("Dest", Object::Array(vec![]))]))]), "panic@src/outlines.rs", "build_outline_result: Dest [] -> obj_array[0]".into()),
+        ("F-C13-c", "outl", mini(outlines_to(11), vec![(10, root(11)), (11, item(vec![("Dest", Object::Array(vec![rf((3, 0))]))]))]), "panic@src/outlines.rs", "build_outline_result: Dest [page] -> obj_array[1]".into()),
+        ("F-C13-d", "dests", names_doc(lit(b"k"), rf((31, 0)), vec![(31, Object::Dictionary(dict(vec![("X", Object::Null)])))]), "panic@src/destinations.rs", "get_named_destinations: destination dictionary without D -> unwrap".into()),
+        ("F-C13-d2", "dests", names_doc(lit(b"k"), rf((31, 0)), vec![(31, Object::Array(vec![rf((3, 0))]))]), "panic@src/destinations.rs", "get_named_destinations: destination array of length 1 -> val[1]".into()),
+        ("F-C13-d3", "dests", names_doc(name("k"), Object::Dictionary(dict(vec![("D", fit_dest())])), vec![]), "panic@src/destinations.rs", "get_named_destinations: key is not a string -> as_str().unwrap()".into()),
+        ("F-C13-d4", "dests", mini(vec![("Dests", rf((15, 0)))], vec![(15, Object::Dictionary(dict(vec![("Kids", Object::Array(vec![rf((15, 0))]))])))]), "diverge", "get_named_destinations: cyclic Kids recurses until the stack overflows".into()),
+        ("F-C13-f", "pages", count_doc(&[i64::MAX, i64::MAX, 2]), "panic@core:sum-overflow", "get_pages: size_hint sums Count values -> usize overflow".into()),
+        ("F-C13-f2", "pages", count_doc(&[1 << 62]), "panic@alloc:capacity-overflow", "get_pages: collect() reserves Count+1 elements -> capacity overflow".into()),
+        ("F-C13-f3", "pages", count_doc(&[1 << 40]), "panic@abort:alloc", "get_pages: collect() reserves Count+1 elements -> 12 TB allocation fails, process aborts".into()),
+    ];
+    let mut batch = vec![]; let mut docs = vec![]; let mut meta = vec![];
+    for (i, (fid, field, doc, expect, what)) in w.into_iter().enumerate() {
+        let Some(_r) = c.case("witness", i as u64) else { continue };
+        let targets = vec![(3, 0)];
+        let hz = analyse(&doc, &targets);
+        let req = request(&format!("one={}", field), &targets, &doc);
+        c.nontrivial(&req);
+        meta.push((fid.to_string(), field.to_string(), expect.to_string(), what, req.clone()));
+        batch.push(Pending { case_id: c.cur, stream: "witness".into(), req, doc_targets: targets, hazard: hz }); docs.push(doc);
+    }
+    let before = c.corr.len();
+    run_batch(c, batch, &docs);
+    for (k, (fid, field, expect, what, _req)) in meta.into_iter().enumerate() {
+        let got = c.corr.get(before + k).map(|x| x.impl_reply.clone()).unwrap_or_default();
+        let v = got.strip_prefix(&format!("{}=", field)).unwrap_or(&got).to_string();
+        c.witness(&fid, v.starts_with(&expect), &format!("{} — observed {}", what, v));
+    }
+}
